@@ -6,7 +6,9 @@
 Verdict clauses written by the spec are mapped to the property whose statement they decide.
 """
 import os, json, random, itertools, multiprocessing as mp, time
-from ..common import (Result, run_tlc, scratch, Machinery, tlc_error_excerpt, coverage_counts, finish, OUT, rats_in, RAT_BOUND)
+from fractions import Fraction as F
+from ..common import (Result, run_tlc, scratch, Machinery, tlc_error_excerpt, coverage_counts, finish, OUT, rats_in, RAT_BOUND, rat,
+                      in_arith_range)
 from .. import domains as D
 from .. import etrace
 
@@ -311,7 +313,7 @@ ALL_MC_PROPS = MC_PROPS + ["MRandomOnlyWithTiebreak"]
 
 
 def standard_run(pid, tier, seed, replay, mc_runs, corpus_fn, nontrivial, rule_text, extra=None, monitors=etrace.ALL_MONITORS, role3=None,
-                 repo_test_rules=None):
+                 repo_test_rules=None, wide=None):
     """mc_runs: list of dicts(family, cands, max_ballots, max_w, with_half) per tier key"""
     res = Result(pid, tier, seed)
     scratch(pid)
@@ -340,6 +342,8 @@ def standard_run(pid, tier, seed, replay, mc_runs, corpus_fn, nontrivial, rule_t
         traces += rt
     res.notes["explored_inputs"] = len({json.dumps(t["_inp"], sort_keys=True) for t in traces if t["_info"].get("explored")})
     verdicts, byid = judge(res, pid, traces, os.path.join(OUT, pid, "traces"), monitors=monitors, nontrivial=nontrivial)
+    if wide is not None:
+        wide_stv(res, pid, tier, seed, verdicts, byid, replay_traces=[t for t in traces if not in_arith_range(t)] if replay else None, **wide)
     if extra:
         extra(res, traces, verdicts, byid)
     return res
@@ -421,3 +425,85 @@ def behaviour_set_equality(res, pid, family, cands, max_ballots, max_w, with_hal
     res.notes["behaviour_set_equality"] = {"inputs": len(spec), "compared": compared, "skipped_known_or_incomplete": skipped, "skipped_runs_ending_in_other_exception": skipped_err,
                                            "spec_behaviours": sum(len(v) for v in spec.values()), "code_runs": len(traces)}
     return compared
+
+
+# ----------------------------------------------------------------------------- wide STV counts (beyond TLC's 32-bit exact range)
+def _wide_inputs(rng, n, rules, coalition=False):
+    from ..elections import base_cfg
+    out = []
+    for _ in range(n):
+        nc = rng.randint(4, 9)
+        cands = D.ABC[:nc] if nc <= len(D.ABC) else [chr(65 + i) for i in range(nc)]
+        rule = rng.choice(rules)
+        m = 1 if rule == "IRV" else rng.randint(1, nc - 1)
+        style = rng.choice(["large", "large", "grain", "equal"])
+        nb = rng.randint(6, 40)
+        ballots = []
+
+        def weight():
+            if style == "large":
+                return F(rng.randint(1, 5000))
+            if style == "grain":
+                return F(rng.randint(1, 4000), rng.choice([1, 3, 7, 11, 13]))
+            return F(rng.choice([100, 250, 250, 1000]))       # equal piles: ties at election and at elimination
+        if coalition:
+            S = rng.sample(cands, rng.randint(1, nc - 1))
+            others = [c for c in cands if c not in S]
+            for _ in range(rng.randint(2, 12)):
+                perm = rng.sample(S, len(S))
+                tail = rng.sample(others, rng.randint(0, len(others)))
+                ballots.append({"r": [[c] for c in perm + tail], "w": rat(weight())})
+        while len(ballots) < nb:
+            r = rng.sample(cands, rng.randint(1, nc))
+            ballots.append({"r": [[c] for c in r], "w": rat(weight())})
+        rng.shuffle(ballots)
+        cfg = base_cfg(rule=rule, m=m, quota="droop" if coalition else rng.choice(["droop", "droop", "hare"]),
+                       simul=True if rule == "IRV" else rng.random() < 0.5,
+                       xfer="full" if rule == "SequentialRCV" else "fractional", tb=rng.choice(["random", "borda", "first_place", "none"]))
+        out.append({"cfg": cfg, "cands": cands, "ballots": ballots, "mode": "real", "seed": rng.randrange(10**6), "omit_defaults": rng.random() < 0.3})
+    return out
+
+
+def wide_stv(res, pid, tier, seed, verdicts, byid, rules=STV_RULES, n=None, coalition=False, replay_traces=None):
+    """STV / IRV / SequentialRCV counts whose tallies leave TLC's exact range (4-9 candidates, 6-40 ballots, weights in the thousands, chained
+    fractional surpluses): each recorded round is checked against harness/stv_mirror.py, the exact-fraction transcription of the STV actions
+    and monitors of Election.tla.  Declared in evidence as python_compared.  The transcription is first cross-checked against TLC on this very
+    run: it must give the same accept / reject verdict as ElectionTrace.tla on every in-range STV-family trace just validated; if it does not,
+    the supplement is skipped (and the evidence says so) rather than trusted."""
+    from .. import stv_mirror as M
+    ncmp = dis = 0
+    for tid, v in verdicts.items():
+        t = byid[tid]
+        if t["cfg"]["rule"] not in STV_RULES or t["cfg"]["xfer"] == "random" or not t.get("has_round0"):
+            continue
+        acc = not etrace.problems(v)
+        try:
+            macc = not M.check_trace(t)
+        except Exception:  # noqa
+            macc = None
+        ncmp += 1
+        if acc and macc is not True:
+            dis += 1            # the transcription is stricter than the specification: its alarms would be unsound
+    res.notes["mirror_cross_check"] = {"in_range_traces_compared_with_TLC": ncmp, "accepted_by_TLC_rejected_by_transcription": dis}
+    if dis:
+        res.notes["mirror_cross_check"]["consequence"] = "wide supplement skipped"
+        return
+    rng = random.Random(9000 + seed + sum(map(ord, pid)))
+    n = n or (600 if tier == "quick" else 20000)
+    traces = replay_traces if replay_traces is not None else record_corpus(_wide_inputs(rng, n, rules, coalition))
+    cc = {}
+    wide = 0
+    for t in traces:
+        if not in_arith_range(t):
+            wide += 1
+        for clause, i in M.check_trace(t):
+            if clause == "KF":
+                continue
+            cc[clause] = cc.get(clause, 0) + 1
+            if pid in clause_property(t["cfg"]["rule"], clause):
+                res.violation("%s:Wide(py):%s" % (t["cfg"]["rule"], clause), "wide count of %s (%d candidates, %d ballots): event %d violates clause %s of the "
+                              "exact-fraction reading of Election.tla" % (t["cfg"]["rule"], len(t["cands"]), len(t["_inp"]["ballots"]), i, clause),
+                              {"input": t["_inp"], "trace": {k: x for k, x in t.items() if not k.startswith("_")}})
+    res.notes["python_compared"] = res.notes.get("python_compared", 0) + len(traces)
+    res.notes["wide_stv"] = {"runs": len(traces), "beyond_tlc_range": wide, "rounds": sum(len(t["events"]) for t in traces), "clauses": cc,
+                             "note": "checked against harness/stv_mirror.py (exact-fraction transcription of the STV actions of Election.tla)"}
